@@ -248,6 +248,31 @@ func runRegistryHistory(c *fw.Ctx, prop string, rules map[string]bool) {
 		if b == reimportAt {
 			e.Reimport()
 		}
+		// the gov module account - the one account whose messages need no signature - names itself
+		// as owner of somebody's registration in a proposal: nothing of it may take effect (the model
+		// knows purchases and records of the registered owner only)
+		if b > 4 && e.Last != nil && len(e.Last.Wrk)+len(e.Last.Beacons) > 0 && r.Chance(4) {
+			gov := lab.GovAuthority()
+			var m sdk.Msg
+			if k := r.Intn(len(e.Last.Wrk) + len(e.Last.Beacons)); k < len(e.Last.Wrk) {
+				w := e.Last.Wrk[k]
+				if r.Chance(65) {
+					m = &wrkchaintypes.MsgPurchaseWrkChainStateStorage{WrkchainId: w.WrkchainId, Number: uint64(r.Range(1, 3)), Owner: gov}
+				} else {
+					m = &wrkchaintypes.MsgRecordWrkChainBlock{WrkchainId: w.WrkchainId, Height: w.Lastblock + 1, BlockHash: g.hash(32), Owner: gov}
+				}
+			} else {
+				bc := e.Last.Beacons[k-len(e.Last.Wrk)]
+				if r.Chance(65) {
+					m = &beacontypes.MsgPurchaseBeaconStateStorage{BeaconId: bc.BeaconId, Number: uint64(r.Range(1, 3)), Owner: gov}
+				} else {
+					m = &beacontypes.MsgRecordBeaconTimestamp{BeaconId: bc.BeaconId, Hash: g.hash(32), SubmitTime: 77, Owner: gov}
+				}
+			}
+			e.Gov("gov names itself owner: "+descMsgs([]sdk.Msg{m}), m)
+			c.Count("gov_as_owner_proposals", 1)
+			continue
+		}
 		e.BeginBlock(time.Duration(r.Range(1, 7)) * time.Second)
 		ntx := r.Range(1, 5)
 		for i := 0; i < ntx; i++ {
